@@ -206,7 +206,7 @@ class C16(Check):
                 res.nontrivial.add(h64(repr(case)))
                 res.hist['nontrivial'] += 1
                 if len(res.samples) < 1:
-                    res.sample({'tree': repr(root)[:250], 'callbacks': callbacks})
+                    res.sample({'tree': trees.safe_repr(root)[:250], 'callbacks': callbacks})
             if bad:
                 res.mismatch(case)
         try:
@@ -220,7 +220,7 @@ class C16(Check):
         bad, root = run_case(mod, case)
         if bad is None:
             return None
-        return {'bucket': bad[0], 'detail': bad[1], 'tree': repr(root)[:400], 'callbacks': case['callbacks']}
+        return {'bucket': bad[0], 'detail': bad[1], 'tree': trees.safe_repr(root)[:400], 'callbacks': case['callbacks']}
 
     def shrink(self, case, still_fails, deadline):
         best = dict(case)
@@ -236,7 +236,7 @@ class C16(Check):
 
     def describe(self, case):
         mod = trees.get_module()
-        return {'tree': repr(trees.build(case['spec'], mod))[:800], 'callbacks': case['callbacks'],
+        return {'tree': trees.safe_repr(trees.build(case['spec'], mod))[:800], 'callbacks': case['callbacks'],
                 'parsed': case.get('parsed')}
 
 
